@@ -12,7 +12,9 @@
    ((st)->DecControl.nChannelsInternal == 0 || (st)->DecControl.nChannelsInternal == 1 || (st)->DecControl.nChannelsInternal == 2) && \
    ((st)->DecControl.payloadSize_ms == 0 || (st)->DecControl.payloadSize_ms == 10 || (st)->DecControl.payloadSize_ms == 20 || (st)->DecControl.payloadSize_ms == 40 || (st)->DecControl.payloadSize_ms == 60) && \
    ((st)->stream_channels == 1 || (st)->stream_channels == 2) && \
-   (st)->frame_size >= (st)->Fs / 400 && (st)->frame_size <= 3 * (st)->Fs / 25 && (st)->frame_size % ((st)->Fs / 400) == 0 && \
+   /* frame_size is only ever set from a TOC byte (or Fs/400 by init/reset): one of the six Opus frame durations */ \
+   ((st)->frame_size == (st)->Fs / 400 || (st)->frame_size == (st)->Fs / 200 || (st)->frame_size == (st)->Fs / 100 || (st)->frame_size == (st)->Fs / 50 || \
+    (st)->frame_size == (st)->Fs / 25 || (st)->frame_size == 3 * (st)->Fs / 50) && \
    (st)->arch >= 0 && (st)->arch <= OPUS_ARCHMASK)
 
 #define DEC_CONFIG_SAME(st) ((st)->Fs == __CPROVER_old((st)->Fs) && (st)->channels == __CPROVER_old((st)->channels) && \
@@ -38,6 +40,9 @@ __CPROVER_ensures((__CPROVER_return_value > 0 && data != NULL && len > 1) ==> __
 /* concealment returns a positive multiple of 2.5 ms when asked for one */
 __CPROVER_ensures((__CPROVER_return_value > 0 && (data == NULL || len <= 1) && frame_size % (st->Fs / 400) == 0) ==>
                   __CPROVER_return_value % (st->Fs / 400) == 0)
+/* a frame of <= 1 payload byte (DTX / lost) is concealed for exactly the duration the TOC announced when the buffer allows it */
+__CPROVER_ensures((__CPROVER_return_value > 0 && (data == NULL || len <= 1)) ==> __CPROVER_return_value <= st->frame_size)
+__CPROVER_ensures((__CPROVER_return_value > 0 && (data == NULL || len <= 1) && frame_size >= st->frame_size) ==> __CPROVER_return_value == st->frame_size)
 __CPROVER_ensures(frame_size < st->Fs / 400 ==> __CPROVER_return_value == OPUS_BUFFER_TOO_SMALL)
 __CPROVER_ensures(DEC_OK(st) && DEC_CONFIG_SAME(st))
 ;
